@@ -40,7 +40,7 @@ def jobs(tier):
           ("job_n2b_symbolic", dict(_name="n2b(maxval symbolic, bits<=%d)" % bl, maxbits=bl))]
     for nm in ("I1024.p", "I1024.q", "I2048.p", "I2048.q", "I3072.p", "I3072.q", "Ed25519.L"):
         js.append(("job_n2b_shipped", dict(_name="n2b(%s)" % nm, which=nm)))
-    for g in ("I1024", "I2048", "I3072", "toy11", "toy257", "toy1019", "sp61"):
+    for g in ("I1024", "I2048", "I3072", "toy11", "toy257", "toy1019", "sp61", "big2052"):
         js.append(("job_int_scalar_codec", dict(_name="scalar codec %s" % g, gname=g)))
         js.append(("job_int_element_codec", dict(_name="element codec %s" % g, gname=g)))
     js.append(("job_ed_scalar_codec", dict(_name="scalar codec Ed25519")))
@@ -198,10 +198,9 @@ def job_int_scalar_codec(J, gname):
         J.reach(r)
         cex = lambda m, b=b: dict(group=gname, b=b.model_bytes(m))
         if r.kind == "exc":
-            if isinstance(r.value, AssertionError):
-                J.claim(r, "bytes_to_scalar refuses only values >= q", b.value() >= q, cex=cex, oracle="int_scalar_dec")
-            else:
-                J.claim(r, "no other exception (%s)" % type(r.value).__name__, False, cex=cex, oracle="int_scalar_dec")
+            # which exception type refuses an out-of-range string is not part of the property
+            J.claim(r, "bytes_to_scalar refuses only values >= q (%s)" % type(r.value).__name__, b.value() >= q, cex=cex,
+                    oracle="int_scalar_dec")
             continue
         i, bb = r.value
         J.claim(r, "decoded scalar is the big-endian value and < q", z3.And(T(i) == b.value(), T(i) < q),
@@ -259,7 +258,7 @@ def job_ed_scalar_codec(J):
         def h3(ctx, n=n):
             return E.bytes_to_scalar(SymBytes.fresh("sb", n))
         for r in J.explore(h3):
-            J.claim(r, "bytes_to_scalar refuses %d bytes" % n, r.kind == "exc" and isinstance(r.value, AssertionError),
+            J.claim(r, "bytes_to_scalar refuses %d bytes" % n, r.kind == "exc",
                     cex=lambda m, n=n: dict(b=bytes(n)), oracle="ed_scalar_len")
 
 
@@ -419,10 +418,8 @@ def oracle_int_scalar_dec(group, b):
     v = int.from_bytes(b, "big")
     try:
         i = g.bytes_to_scalar(b)
-    except AssertionError:
-        return (v < g.q, "bytes_to_scalar refused %s" % b.hex())
     except Exception as e:
-        return (True, "%s" % type(e).__name__)
+        return (v < g.q, "bytes_to_scalar refused %s (%s), a scalar below q" % (b.hex()[:60], type(e).__name__))
     ok = i == v and v < g.q and g.scalar_to_bytes(i) == b
     return (not ok, "bytes_to_scalar(%s)=%r" % (b.hex(), i))
 
